@@ -73,7 +73,13 @@ def _is_set_expr(e: ast.AST, sn: Set[str], setfuncs: Set[str]) -> bool:
             return True
         return False
     if isinstance(e, ast.BinOp) and isinstance(e.op, (ast.BitOr, ast.BitAnd, ast.Sub, ast.BitXor)):
-        return _is_set_expr(e.left, sn, setfuncs) or _is_set_expr(e.right, sn, setfuncs)
+        if _is_set_expr(e.left, sn, setfuncs) or _is_set_expr(e.right, sn, setfuncs):
+            return True
+        # the set operators of dictionary views build a plain set: d.keys() | e.keys(), d.items() & e.items()
+        def view(x):
+            return isinstance(x, ast.Call) and isinstance(x.func, ast.Attribute) and x.func.attr in ("keys", "items") and not x.args
+
+        return view(e.left) or view(e.right)
     return False
 
 
@@ -139,26 +145,30 @@ def rule_hash_order(ctx, rep, rid: str) -> None:
     # 1b. local sequences filled from a set and then handed on in an order-sensitive way
     for f in funcs:
         sn = _set_names(f, setfuncs)
-        if not sn:
-            continue
 
-        def over_set(e: ast.AST) -> Optional[str]:
+        def over_set(e: ast.AST, consumed: bool = False) -> Optional[str]:
+            """e is a sequence built in the iteration order of a set; with consumed=True e is iterated by its user
+            (extend, +=), so a set-valued expression itself counts."""
             if isinstance(e, (ast.ListComp, ast.GeneratorExp)) and isinstance(e.generators[0].iter, ast.Name) and e.generators[0].iter.id in sn:
                 return e.generators[0].iter.id
+            if isinstance(e, (ast.ListComp, ast.GeneratorExp)) and not isinstance(e.generators[0].iter, ast.Name) and _is_set_expr(e.generators[0].iter, sn, setfuncs):
+                return short(e.generators[0].iter, 40)
             if isinstance(e, ast.Call) and norm(e.func) in ("list", "tuple") and e.args:
                 if isinstance(e.args[0], ast.Name) and e.args[0].id in sn:
                     return e.args[0].id
                 return over_set(e.args[0])
+            if consumed and not isinstance(e, ast.Name) and _is_set_expr(e, sn, setfuncs):
+                return short(e, 40)  # a set-valued expression consumed in iteration order
             return None
 
         seqs: Dict[str, Tuple[str, int]] = {}
         for n in f.own_nodes():
             if isinstance(n, ast.Assign) and len(n.targets) == 1 and isinstance(n.targets[0], ast.Name) and over_set(n.value):
                 seqs[n.targets[0].id] = (over_set(n.value), n.lineno)
-            if isinstance(n, ast.Call) and isinstance(n.func, ast.Attribute) and n.func.attr in ("extend", "append") and isinstance(n.func.value, ast.Name) and n.args and over_set(n.args[0]):
-                seqs[n.func.value.id] = (over_set(n.args[0]), n.lineno)
-            if isinstance(n, ast.AugAssign) and isinstance(n.target, ast.Name) and over_set(n.value):
-                seqs[n.target.id] = (over_set(n.value), n.lineno)
+            if isinstance(n, ast.Call) and isinstance(n.func, ast.Attribute) and n.func.attr in ("extend", "append") and isinstance(n.func.value, ast.Name) and n.args and over_set(n.args[0], n.func.attr == "extend") and n.func.value.id not in sn:
+                seqs[n.func.value.id] = (over_set(n.args[0], n.func.attr == "extend"), n.lineno)
+            if isinstance(n, ast.AugAssign) and isinstance(n.target, ast.Name) and n.target.id not in sn and isinstance(n.op, ast.Add) and over_set(n.value, True):
+                seqs[n.target.id] = (over_set(n.value, True), n.lineno)
             if isinstance(n, ast.For) and isinstance(n.iter, ast.Name) and n.iter.id in sn:
                 for c in ast.walk(ast.Module(body=n.body, type_ignores=[])):
                     if isinstance(c, ast.Call) and isinstance(c.func, ast.Attribute) and c.func.attr in ("append", "extend", "insert") and isinstance(c.func.value, ast.Name):
